@@ -54,14 +54,14 @@ fn type_class(s: u8) -> String {
 
 macro_rules! __sig {
     ($chk:expr, $id:expr, $rule:expr, $cls:expr) => {
-        format!("{}/{}/{}", $id, $rule, $cls).replace(' ', "_")
+        format!("{}/{}/{}/{}", $id, $rule, $cls, $chk.part).replace(' ', "_")
     };
 }
 macro_rules! vio {
     ($chk:expr, $id:expr, $rule:expr, $cls:expr, $case:expr, $($fmt:tt)*) => {
         if !$chk.flooded(&__sig!($chk, $id, $rule, $cls)) {
         $chk.violate(
-            Violation::new(<_ as AsRef<str>>::as_ref(&$rule), format!("{}/{}/{}", $id, $rule, $cls), format!($($fmt)*))
+            Violation::new(<_ as AsRef<str>>::as_ref(&$rule), format!("{}/{}/{}/{}", $id, $rule, $cls, $chk.part), format!($($fmt)*))
                 .with_case(($case).to_string()),
         )
         }
